@@ -163,11 +163,11 @@ def build_tree(shape, kind):
 
 # ---------------------------------------------------------------- model
 
-def model_rows(root_id, children, E):
+def model_rows(root_id, children, E, reverse=False):
     out = []
 
     def walk(v):
-        for c in children[v]:
+        for c in (children[v][::-1] if reverse else children[v]):
             out.append(c)
             if c in E:
                 walk(c)
@@ -264,7 +264,7 @@ def judge_state(res, ctx, E, out, cookie, via):
         return None
     rows = parse(out)
     shown = [r[0] for r in rows]
-    want = model_rows(root_id, children, E)
+    want = model_rows(root_id, children, E, ctx.get('opt') == 'reverse')
     events = []
     tag = ctx['ids']
     if shown != [k[-1] for k in want]:
@@ -276,8 +276,8 @@ def judge_state(res, ctx, E, out, cookie, via):
     for ident, (_shown_id, links) in zip(want, rows):
         # with assume_children a childless node is drawn with an expand
         # link until it has been expanded (and found empty)
-        has_kids = bool(children[ident]) or (bool(ctx.get('opt')) and
-                                             ident not in E)
+        has_kids = bool(children[ident]) or (
+            ctx.get('opt') == 'assume_children' and ident not in E)
         if not has_kids:
             if links:
                 res.violate('links', 'leaf-has-link:%s' % tag,
@@ -348,7 +348,7 @@ def explore(res, ctx, root, literal_depth):
     """-> (states, transitions)"""
     E0 = frozenset()
     opt = ctx.get('opt', '')
-    extra = [] if opt else [('expand_all', None, None),
+    extra = [] if opt == 'assume_children' else [('expand_all', None, None),
                             ('collapse_all', None, None)]
     out, cookie = render(root, {}, opt)
     ev0 = judge_state(res, ctx, E0, out, cookie, [])
@@ -516,7 +516,7 @@ def run_codec(res, case):
 # ---------------------------------------------------------------- driver
 
 def all_shapes(maxnodes):
-    out = []
+    out = [[]]           # the tree that consists of its root only
     for n in range(2, maxnodes + 1):
         for sh in shapes(n):
             if depth(sh) <= 5:       # root + depth 4 below it
@@ -544,6 +544,11 @@ def cases(tier):
             # node ids that are unique among siblings only
             yield {'fam': 'click', 'shape': sh, 'ids': 'short-dup',
                    'literal': 3}
+        if nodes <= 6:
+            # option reverse: every level is listed backwards (and the
+            # lists the nodes hand out stay as they are)
+            yield {'fam': 'click', 'shape': sh, 'ids': 'short',
+                   'literal': 3, 'opt': 'reverse'}
         if nodes <= (5 if tier == 'quick' else 6):
             # option assume_children: every node carries a link; expanding
             # a childless node only records it in the state
